@@ -136,6 +136,55 @@ fn sibling_roots(rng: &mut Rng) -> Vec<GameState> {
     vec![]
 }
 
+
+/// Fresh scripted roots: a repetition script (long cycler, saturated neighbourhood, take-back) is
+/// first validated on a scratch game to find its longest legal prefix, then REPLAYED with take_action
+/// only, so that nobody has asked the returned state - or any state of its turn - a rule question
+/// yet. The final state is one step (a pass or a fourth step) away from a third occurrence.
+fn fresh_scripted_root(rng: &mut Rng, sel: u64) -> Option<(GameState, &'static str)> {
+    use crate::workloads as w;
+    let (b, gold, mv, script, label): (crate::model::MBoard, bool, u64, Vec<crate::model::Code>, &'static str) = match sel % 4 {
+        0 | 1 => {
+            let (b, gold, mv) = w::long_cycler_position(rng);
+            let k = if sel % 4 == 0 { 4 + rng.below(40) } else { 60 + rng.below(120) };
+            (b, gold, mv, w::long_cycler_script(&b, gold, k, rng)?, "long_cycler")
+        }
+        2 => {
+            let (b, gold, script, _) = w::saturated_script(rng)?;
+            (b, gold, 2, script, "saturated")
+        }
+        _ => {
+            let (b, gold, script, _) = w::takeback_script(rng)?;
+            (b, gold, 2, script, "takeback")
+        }
+    };
+    // validation pass on a scratch game
+    let mut g = inject(&b, gold, mv);
+    let mut legal = 0usize;
+    for c in &script {
+        let a = code_act(*c);
+        if !g.valid_actions().contains(&a) {
+            break;
+        }
+        g = g.take_action(&a);
+        legal += 1;
+    }
+    drop(g);
+    if legal < 8 {
+        return None;
+    }
+    // query-free replay
+    let mut g = inject(&b, gold, mv);
+    for c in &script[..legal] {
+        g = g.take_action(&code_act(*c));
+    }
+    if !g.is_play_phase() || g.current_step() == 0 {
+        // the whole script was legal (nothing withheld at its end): not a root of interest
+        return None;
+    }
+    Some((g, label))
+}
+
 fn setup_root(rng: &mut Rng) -> GameState {
     let mut g = GameState::initial();
     let n = rng.below(32);
@@ -286,6 +335,51 @@ pub fn c18(cfg: &Cfg) -> i32 {
                         s.add("nodes_compared", (n * 2 * (8 + (k as usize % 3) * 8)) as u64);
                         if bad > 0 {
                             s.violate("C18", "concurrent_result_ne_sequential", format!("C18|pool|{}", k), format!("pool round {}: {} answers on a pool of {} different states queried concurrently differ from the sequential answers", k, bad, n), json!({"kind": "threads", "observer": "pool_round", "round": k, "seed": cfg.seed}));
+                        }
+                    }
+                    // fresh rounds: the first rule queries ever made in a turn are made by all threads at once
+                    for k in 0..cfg.n(150, 6000) {
+                        let (root, label) = match fresh_scripted_root(&mut rng, k) {
+                            Some(x) => x,
+                            None => {
+                                s.count("fresh_root_construction_failed");
+                                continue;
+                            }
+                        };
+                        let threads = [8usize, 12, 16][(k % 3) as usize];
+                        let hist = root.as_play_phase().map_or(0, |p| p.hash_history().len() as u64);
+                        let rep = c18bare::round_fresh(&root, 1, threads, (k / 3) as u32, cfg.seed ^ k);
+                        s.count("fresh_rounds");
+                        s.count(&format!("fresh_rounds_{}", label));
+                        if hist >= 16 {
+                            s.count("fresh_rounds_history_ge_16");
+                        }
+                        if hist >= 200 {
+                            s.count("fresh_rounds_history_ge_200");
+                        }
+                        s.max("longest_fresh_root_history", hist);
+                        s.add("nodes_compared", (rep.nodes * rep.threads) as u64);
+                        s.add("fresh_first_queries_released_together", rep.threads as u64);
+                        if rep.mismatching_threads > 0 || rep.root_changed {
+                            let clause = if rep.root_changed { "shared_state_modified" } else { "concurrent_result_ne_sequential" };
+                            s.violate("C18", clause, format!("C18|fresh|{}|{}", label, k), format!("fresh round {} ({} root, history {} entries, {} threads released together onto a state of a turn nobody had queried): {} threads disagree with the sequential expansion computed afterwards, root_changed={}, first mismatch (path, expected, got)={:?}", k, label, hist, threads, rep.mismatching_threads, rep.root_changed, rep.first_mismatch), json!({"kind": "threads", "observer": "fresh_round", "round": k, "threads": threads, "seed": cfg.seed, "root": root.to_string()}));
+                        }
+                    }
+                    // migration rounds: states built on one thread are continued on another
+                    for k in 0..cfg.n(40, 1200) {
+                        let n = 4 + (k as usize % 3) * 2;
+                        let starts: Vec<GameState> = (0..n)
+                            .map(|_| {
+                                let (b, gold, mv) = if rng.chance(2, 3) { gen::w2(&mut rng) } else { gen::w1(&mut rng) };
+                                inject(&b, gold, mv)
+                            })
+                            .collect();
+                        let (bad, cmp) = c18bare::migration_round(&starts, 60, cfg.seed ^ (k << 16));
+                        s.count("migration_rounds");
+                        s.add("migrated_states_successors_compared", cmp as u64);
+                        s.add("nodes_compared", cmp as u64);
+                        if bad > 0 {
+                            s.violate("C18", "concurrent_result_ne_sequential", format!("C18|migration|{}", k), format!("migration round {}: {} states built by one thread and continued by another (which meanwhile queries its own states) produced successors different from the sequential ones ({} successors compared)", k, bad, cmp), json!({"kind": "threads", "observer": "migration_round", "round": k, "threads": n, "seed": cfg.seed}));
                         }
                     }
                     // last owners dropping at the same instant: stack span while the nodes are freed
@@ -444,7 +538,7 @@ pub fn c18(cfg: &Cfg) -> i32 {
         evaluations_counter: "nodes_compared",
         rule: "W12. Observer 1 (build-time): a probe crate requiring Send + Sync of 13 public types (and Arc/Vec/spawn uses) must compile. Observer 2: roots after setup + 0..40 turns, mid-turn roots, W3 roots with shared histories, setup-phase roots, scripted third-repetition roots at step 3 and W5b roots where every turn-ender is withheld (several history lookups with different answers per query; these roots are additionally queried 40 times per thread) are expanded to depth 1-2 by 4..32 threads (shared via Arc, borrowed with concurrent clone/drop threads, or moved clones) in permuted orders with seeded yields/spins between engine calls; every thread's (path, fingerprint) vector must equal the sequential expansion and a deep fingerprint of the root (incl. every history entry) must be unchanged; lists sharing tails of up to 180 000 nodes are dropped from 4..15 threads, and 2-4 threads drop the last handles of one list at the same instant (spin barrier) while drop probes measure the stack span over which the nodes are freed. Pool rounds: the turn trees (depth 3, up to 4 000 different states) below several roots are queried by 8-24 threads at once, each thread in its own order, and every answer is compared with the sequential one (cross-talk between different states and queries); the roots include 'sibling games' that reach the same position after the same number of turns with different histories. Observer 2b: fresh native processes in which 4-16 threads make the very first engine calls at the same instant (cold start: lazily initialised process-wide state) must agree with the sequential result. Observer 3: the same bare workload (no shared monitor state) under ThreadSanitizer (-Zbuild-std) and under Miri -Zmiri-many-seeds. distinct_nontrivial = distinct thread completion orders observed natively.".into(),
         assumptions: vec!["'under every interleaving' is sampled (rounds, TSan runs, Miri seeds), not enumerated".into(), "the Send + Sync half is decided by the compiler on a probe crate (a build-time observation)".into(), "TSan/Miri see only the code the bare workload reaches (all public queries + take_action + clone/drop)".into()],
-        floors: vec![floor("rounds", 5000, 150_000), floor("nodes_compared", 500_000, 20_000_000), floor("distinct_thread_completion_orders", 500, 5000), floor("tsan_runs", 12, 200), floor("tsan_nodes_compared", 10_000, 100_000), floor("miri_seeds_completed", 12, 96), floor("autotrait_probe_builds", 1, 1), floor("longest_shared_history", 20, 30), floor("rounds_root_third_repetition_at_step3", 500, 15_000), floor("rounds_root_saturated_all_withheld", 400, 12_000), floor("simultaneous_last_owner_drop_rounds", 500, 5000), floor("cold_start_processes", 64, 1000), floor("pool_rounds", 20, 400), floor("pool_rounds_with_sibling_games", 15, 300), floor("sibling_duel_queries", 50_000, 1_000_000), floor("pool_states_queried_concurrently", 200_000, 4_000_000)],
+        floors: vec![floor("rounds", 5000, 150_000), floor("nodes_compared", 500_000, 20_000_000), floor("distinct_thread_completion_orders", 500, 5000), floor("tsan_runs", 12, 200), floor("tsan_nodes_compared", 10_000, 100_000), floor("miri_seeds_completed", 12, 96), floor("autotrait_probe_builds", 1, 1), floor("longest_shared_history", 20, 30), floor("rounds_root_third_repetition_at_step3", 500, 15_000), floor("rounds_root_saturated_all_withheld", 400, 12_000), floor("simultaneous_last_owner_drop_rounds", 500, 5000), floor("cold_start_processes", 64, 1000), floor("pool_rounds", 20, 400), floor("pool_rounds_with_sibling_games", 15, 300), floor("sibling_duel_queries", 50_000, 1_000_000), floor("pool_states_queried_concurrently", 200_000, 4_000_000), floor("fresh_rounds", 100, 4000), floor("fresh_rounds_history_ge_16", 80, 3000), floor("fresh_rounds_history_ge_200", 20, 800), floor("migration_rounds", 100, 1000), floor("migrated_states_successors_compared", 15_000, 400_000)],
         level: "exploration",
         exhaustive: None,
         extra,
